@@ -197,16 +197,22 @@ structure TextLib.Lawful (lib : TextLib F) : Prop where
   /-- `repr(True)` / `repr(False)` are among the words `BoolType.from_string` knows, also after `strip` -/
   boolWordTrue : lib.strip (lib.reprBool true) = "True"
   boolWordFalse : lib.strip (lib.reprBool false) = "False"
-  /-- formatting is stable under re-reading: `fmt % float(literal_eval(fmt % x)) == fmt % x` for a finite
-  `x` that is not `-0.0`, through `FloatRange.__call__` … -/
+  /-- idempotence of format∘parse, stated of the library and the float arithmetic alone (no frappy code): the text of a
+  finite float that is not `-0.0` is a number literal `w` (a float, or an int: `'%.0f' % 3.0` is `'3'`) which is not NaN,
+  and formatting the number it reads back as — brought into the float range, as `'%.3g' % 1.797e308` is `'1.8e+308'` and
+  reads back as `inf` — gives the same text: `fmt % clamp(-max, literal_eval(fmt % x) + 0.0, max) == fmt % x`.
+  That `FloatRange.__call__` accepts such a `w` and returns exactly that clamped number is proved from the model
+  (`Lemmas.C02.doubleCall_of_number`), not assumed. -/
   fmtDouble : ∀ (pos : List Nat) (x : F), FiniteNum x → same (addZero x) x = true →
-    ∃ w y, lib.evalAtom (lib.fmtFloat pos x) = some w ∧ doubleCall w = .ok y ∧
-      lib.fmtFloat pos y = lib.fmtFloat pos x
-  /-- … and through `ScaledInteger.__call__` for a value the grid reproduces; the grid value the text is read as is
-  again one the grid reproduces (`round(y / scale) * scale == y`: the grid law at the re-read value) -/
+    ∃ w r, lib.evalAtom (lib.fmtFloat pos x) = some w ∧ PVal.toFloat? w = some r ∧ isNaN r = false ∧
+      lib.fmtFloat pos (median3 (neg maxFinite) r maxFinite) = lib.fmtFloat pos x
+  /-- … for a value `x` the grid of `scale` reproduces: the text is a number literal, the grid value `y` nearest to the
+  number read (`round(r / scale) * scale`) is finite, prints as the same text and is again one the grid reproduces
+  (`round(y / scale) * scale == y`).  That `ScaledInteger.__call__` returns this `y` is proved from the model
+  (`Lemmas.C02.scaledCall_of_number`). -/
   fmtScaled : ∀ (pos : List Nat) (scale x : F), SnapFix scale x → same (addZero x) x = true →
-    ∃ w y, lib.evalAtom (lib.fmtFloat pos x) = some w ∧ scaledCall scale w = .ok y ∧
-      lib.fmtFloat pos y = lib.fmtFloat pos x ∧ SnapFix scale y
+    ∃ w r y, lib.evalAtom (lib.fmtFloat pos x) = some w ∧ PVal.toFloat? w = some r ∧ DType.snap scale r = some y ∧
+      isFinite y = true ∧ lib.fmtFloat pos y = lib.fmtFloat pos x ∧ SnapFix scale y
 
 mutual
 /-- `str.strip` leaves every enum member name of the tree alone (no leading/trailing white space) -/
@@ -423,7 +429,10 @@ def judgeText (v : PVal F) (t : Out Text) (back : Option (Out (PVal F))) (again 
     | none => ["text:missing"]
 
 /-- client string write: `back` = what `from_string` made of the text on the client, `sent` = the JSON
-value found in the `change` line the client sent, `node` = `import_value(sent)` on the node's datatype -/
+value found in the `change` line the client sent, `node` = `import_value(sent)` on the node's datatype.
+The driver judges `setParameter(value)` of the cached value with the same function (`back` = the cached value;
+clauses renamed `cset:…`): the exported form of the client's datatype is of the kind the node's type prescribes and
+imports on the node to an equal value. -/
 def judgeClientWrite (dt : DType F) (back : Out (PVal F)) (sent : Out (JVal F)) (node : Option (Out (PVal F))) : List String :=
   match back with
   | .err _ => []                                    -- judged by `judgeText`
